@@ -40,3 +40,87 @@ func Since(t time.Time) time.Duration { return time.Now().Sub(t) }
 
 //verif:model time.Until
 func Until(t time.Time) time.Duration { return t.Sub(time.Now()) }
+
+// ---- timers with a callback / re-armable timers (time.AfterFunc, time.NewTimer, Stop, Reset)
+
+type timerCtl struct {
+	stop chan struct{}
+	done bool
+	f    func()
+}
+
+var timerCtls = map[*time.Timer]*timerCtl{}
+
+//verif:atomic
+func timerCtlOf(t *time.Timer) *timerCtl { return timerCtls[t] }
+
+//verif:atomic
+func timerSetCtl(t *time.Timer, c *timerCtl) { timerCtls[t] = c }
+
+// timerClaim: the timer fires (true) unless it was stopped first
+//
+//verif:atomic
+func timerClaim(c *timerCtl) bool {
+	if c.done {
+		return false
+	}
+	c.done = true
+	return true
+}
+
+// timerCancel: stops the timer; true if it had not fired or been stopped yet
+//
+//verif:atomic
+func timerCancel(c *timerCtl) bool {
+	if c.done {
+		return false
+	}
+	c.done = true
+	close(c.stop)
+	return true
+}
+
+func timerArm(t *time.Timer, d time.Duration, f func()) {
+	c := &timerCtl{stop: make(chan struct{}), f: f}
+	timerSetCtl(t, c)
+	go func() {
+		select {
+		case <-timerChan(d):
+			if timerClaim(c) {
+				f()
+			}
+		case <-c.stop:
+		}
+	}()
+}
+
+//verif:model time.NewTimer
+func NewTimer(d time.Duration) *time.Timer { return &time.Timer{C: timerChan(d)} }
+
+//verif:model time.AfterFunc
+func AfterFunc(d time.Duration, f func()) *time.Timer {
+	t := &time.Timer{}
+	timerArm(t, d, f)
+	return t
+}
+
+//verif:model (*time.Timer).Stop
+func TimerStopModel(t *time.Timer) bool {
+	c := timerCtlOf(t)
+	if c == nil {
+		return true // a channel timer: nothing runs on its own, an unread tick is simply never read
+	}
+	return timerCancel(c)
+}
+
+//verif:model (*time.Timer).Reset
+func TimerResetModel(t *time.Timer, d time.Duration) bool {
+	c := timerCtlOf(t)
+	if c == nil {
+		t.C = timerChan(d)
+		return true
+	}
+	active := timerCancel(c)
+	timerArm(t, d, c.f)
+	return active
+}
